@@ -379,6 +379,8 @@ class Connection(object):
             self._logger.debug('TX %d octets, remain %d octets (msg empty %s)', sent_size, len(
                 self.__tx_buf), up_empty)
         cont = (not buf_empty or not up_empty)
+        if not cont:
+            self.send_drained()
         return cont
 
     def send_ready(self):
@@ -412,6 +414,12 @@ class Connection(object):
         :rtype: int
         '''
         return len(self.__tx_buf)
+
+    def send_drained(self):
+        ''' Handler for all pending data having been written to the socket.
+        Derived classes may overload this method.
+        '''
+        pass
 
     def send_raw(self, size):
         ''' Obtain a block of data to send.
@@ -1285,6 +1293,10 @@ class ContactHandler(Messenger, dbus.service.Object):
         if self._in_term and self._peer_term and self.is_sess_idle():
             self._logger.info('Closing in terminating state')
             self.close()
+
+    def send_drained(self):
+        # An own SESS_TERM (reply) may have been the last thing to wait for
+        self._check_sess_term()
 
     def recv_sess_term(self, reason):
         Messenger.recv_sess_term(self, reason)
